@@ -18,9 +18,11 @@ Print Assumptions C07_safe_remove.
    every delete issued satisfies C07_safe_remove's premise in the store of that moment (ds_safe is
    premiseb evaluated on the current store), and the store reads at every revision >= R exactly like
    the ghost store that received the writers' commits and none of the deletes.
-   `good` = no plain version delete was answered with a compare failure (see C07_good_needed). *)
+   The outcome assignments include a compare failure (FailCond) on plain version deletes: compactKey records the
+   key as failed whatever the error; only the index compare-and-delete goes on after a failed compare
+   (Example C07_ex_cas_on_version_delete). *)
 Theorem C07_pass : forall R V snap oc,
-  scan_ok R V snap oc -> good (scan R V snap oc) ->
+  scan_ok R V snap oc ->
   Forall (fun s => ds_safe s = true) (d_trace (scan R V snap oc)) /\
   veq R (d_store (scan R V snap oc)) (d_ghost (scan R V snap oc)) /\
   (forall k r v, In (RVer k r v) V -> In (RVer k r v) (d_ghost (scan R V snap oc))) /\
@@ -31,7 +33,7 @@ Print Assumptions C07_pass.
 (* without concurrent writers: the reads are those of the store before the pass *)
 Theorem C07_pass_sequential : forall R V snap (os : list outcome),
   let oc := map (fun o => ([], o)) os in
-  scan_ok R V snap oc -> good (scan R V snap oc) -> veq R (d_store (scan R V snap oc)) V.
+  scan_ok R V snap oc -> veq R (d_store (scan R V snap oc)) V.
 Proof. exact scan_safe_seq. Qed.
 Print Assumptions C07_pass_sequential.
 
@@ -42,7 +44,7 @@ Print Assumptions C07_pass_sequential.
    the ranges - nothing outside the compaction ranges is touched *)
 Theorem C07_pass_all_ranges : forall R V ranges (os : list outcome),
   let d := compact_all R 0 ranges (init_d V (map (fun o => ([], o)) os)) in
-  store_ok V -> uniq_ver V -> good d ->
+  store_ok V -> uniq_ver V ->
   Forall (fun s => ds_safe s = true) (d_trace d) /\
   veq R (d_store d) V /\
   (forall y, In y (d_store d) -> In y V) /\
@@ -94,7 +96,7 @@ Print Assumptions C07_borders.
    survives the pass, whatever deletes fail and wherever it dies (no concurrent writers) *)
 Theorem C07_wf_preserved : forall R V snap (os : list outcome),
   let oc := map (fun o => ([], o)) os in
-  scan_ok R V snap oc -> good (scan R V snap oc) -> wfd V -> wfd (d_store (scan R V snap oc)).
+  scan_ok R V snap oc -> wfd V -> wfd (d_store (scan R V snap oc)).
 Proof. exact scan_wf. Qed.
 Print Assumptions C07_wf_preserved.
 
@@ -215,11 +217,6 @@ Proof.
     first [injection H as _ <- _|injection H as _ <-]; lia.
 Qed.
 
-Example C07_ex_good : good (scan 105 exV exV exOc).
-Proof.
-  intros s Hs. vm_compute in Hs. repeat (destruct Hs as [<-|Hs]; [intros [H1 H2]; discriminate|]). destruct Hs.
-Qed.
-
 (* the run: index compare-and-delete, version 101, then the delete of 102 fails: 102 and the tombstone stay *)
 Example C07_ex_run :
   map (fun s => (ds_kind s, ds_target s, ds_out s, ds_safe s)) (rev (d_trace (scan 105 exV exV exOc)))
@@ -229,14 +226,19 @@ Example C07_ex_run :
   /\ get_at (d_store (scan 105 exV exV exOc)) 106 ka = Some (106, [6]).
 Proof. vm_compute. repeat split. Qed.
 
-(* `good` is needed: a plain delete answered with a compare failure (not recorded as a failed key by
-   updateSkippedRawKey) lets the pass delete the tombstone over a surviving version: the deleted key
-   reappears (finding C07-F2) *)
-Example C07_good_needed :
+(* a plain version delete answered with a compare failure (the TiKV adapter reports a commit write conflict
+   that way) marks the key like any other failure: the tombstone above the surviving version is not deleted and
+   the key stays deleted (the former defect C07-F2, fixed); an index compare failure does not stop the pass *)
+Example C07_ex_cas_on_version_delete :
   let os := [OOk; OOk; OFailCond] in
-  get_at exV 105 ka = None /\
-  get_at (d_store (scan 105 exV exV (map (fun o => ([], o)) os))) 105 ka = Some (102, [2]).
-Proof. vm_compute. split; reflexivity. Qed.
+  let d := scan 105 exV exV (map (fun o => ([], o)) os) in
+  get_at exV 105 ka = None /\ get_at (d_store d) 105 ka = None /\
+  map (fun s => (ds_kind s, ds_target s, ds_out s)) (rev (d_trace d))
+  = [(KDelCur, RIdx ka 103 true, OOk); (KDel, RVer ka 101 [1], OOk); (KDel, RVer ka 102 [2], OFailCond); (KDel, RVer kb 104 [4], OOk)] /\
+  let d' := scan 105 exV exV (map (fun o => ([], o)) [OFailCond]) in
+  map (fun s => (ds_kind s, ds_out s)) (rev (d_trace d'))
+  = [(KDelCur, OFailCond); (KDel, OOk); (KDel, OOk); (KDel, OOk); (KDel, OOk)].
+Proof. vm_compute. repeat split. Qed.
 
 (* the tombstone clause of the premise is needed: removing the newest live version changes reads *)
 Example C07_premise_needed :
